@@ -32,7 +32,7 @@
 From Coq Require Import List NArith ZArith Arith Bool Lia.
 From Iodine Require Import Generated.SrcConsts Base Codec Hostname DnsName DnsMsg Domain Server
   ServerSafetyProofs ServerSafetyOps ServerSafetyStep ServerSafetyStep2 ServerSafetyFrame
-  ServerSafetyRun ServerSafetyFuel ServerSafetyMisc.
+  ServerSafetyRun ServerSafetyFuel ServerSafetyMisc ServerSafetyExample.
 Import ListNotations.
 Local Open Scope N_scope.
 
@@ -260,3 +260,22 @@ Proof.
 Qed.
 Print Assumptions C05_char_arithmetic.
 
+
+(* ---- non-vacuity ---------------------------------------------------------------------------------------------- *)
+
+(* the oracle hypothesis holds for the codec of the correspondence run, and the hypotheses of
+   C05_established_session_survives hold on a concrete run: an established session (version + login
+   handshake built by the model's client-side builders) and six datagrams from a third party --
+   garbage, a ping naming the session's userid, a raw login with a wrong hash, a version handshake of
+   its own (which claims slot 1), a data query, 200 bytes of junk one second before the time-out *)
+Example C05_nonvacuous :
+  unz_bounded unz_frame /\
+  (u_active (getu ex_st 0) = true /\ u_auth (getu ex_st 0) = true) /\
+  hostile_run login_stub zc_frame unz_frame ex_cfg 0 ex_st ex_hostile /\
+  u_active (getu (fst (run login_stub zc_frame unz_frame ex_cfg ex_st ex_hostile)) 1) = true /\
+  nth_error (fst (run login_stub zc_frame unz_frame ex_cfg ex_st ex_hostile)) 0 = nth_error ex_st 0.
+Proof.
+  split; [exact unz_frame_bounded|]. split; [split; apply ex_established|].
+  split; [exact ex_hostile_run|exact ex_outcome].
+Qed.
+Print Assumptions C05_nonvacuous.
